@@ -1,9 +1,11 @@
 (** C08 — Pseudo-TCP delivers exactly the bytes written, in order, then end-of-stream.
-    Proved part: the building blocks of the data path on the bit-exact model.  The two-socket prefix /
-    end-of-stream theorem over all schedules is NOT proved (DESIGN.md); that clause rests on the
-    correspondence (model = code) plus the implementation-side prefix/EOS oracle as counterexample search. *)
+    Proved: the building blocks of the data path on the bit-exact model, and SENDER HONESTY over every sequence of socket
+    operations (C08_sender_honesty).  The receiver-side invariant and the two-socket prefix / end-of-stream theorem over all
+    schedules are NOT proved here (DESIGN.md; coq/Ptcp/ReceiverInvProofs.v holds the proved receive-side lemmas); that clause rests
+    on the correspondence (model = code) plus the implementation-side prefix/EOS oracle as counterexample search.
+    C08_receiver_needs_more_than_honest_data_refuted is a concrete run showing that honesty of the data segments alone is not enough. *)
 From Coq Require Import ZArith List Bool.
-From Nice Require Import Base.Bytes Ptcp.PtcpModel Ptcp.PtcpProofs Ptcp.ReassemblyProofs.
+From Nice Require Import Base.Bytes Ptcp.PtcpModel Ptcp.PtcpProofs Ptcp.ReassemblyProofs Ptcp.SockOps Ptcp.SenderInvProofs Ptcp.E2ESafetyProofs.
 Import ListNotations.
 Local Open Scope Z_scope.
 
@@ -38,3 +40,44 @@ Theorem C08_commit_appends_the_stream_partial : forall S f n f2,
   rb_commit f n = Ok f2 ->
   rb_data f2 = rb_data f ++ firstn (Z.to_nat n) (skipn (Z.to_nat (rb_total f)) S) /\ rb_total f2 = rb_total f + n.
 Proof. exact rb_commit_appends_stream. Qed.
+
+(** SENDER HONESTY.  [run (start s0) ops] applies ANY sequence of operations (connect / send / recv / notify_packet with any bytes /
+    notify_clock and get_next_clock at any times / notify_mtu / shutdown / close / buffer sizes) to a socket that starts in LISTEN with
+    nothing queued; [t_written] is the concatenation of the prefixes [send] accepted, [t_ev] every event so far.  If the model does not
+    Fault and fewer than 2^31 - 8 bytes were accepted (no sequence-number wrap), there is an offset c <= 7 (the length of the connect
+    message) such that EVERY data packet ever emitted (non-empty payload, no CTL flag; first transmissions, retransmissions, MTU-driven
+    re-segmentations alike) carries exactly the accepted bytes at position seq - c. *)
+Theorem C08_sender_honesty : forall s0 ops t,
+  init_ok s0 -> run (start s0) ops = Ok t -> len (t_written t) < NW - 8 ->
+  exists c, 0 <= c <= 7 /\
+    forall p, In (EvPacket p) (t_ev t) -> data_packet p ->
+      c <= pkt_seq p /\ pkt_seq p - c + len (pkt_payload p) <= len (t_written t) /\
+      pkt_payload p = sub (t_written t) (pkt_seq p - c) (len (pkt_payload p)).
+Proof. exact sender_honesty. Qed.
+Print Assumptions C08_sender_honesty.
+
+(** the hypotheses are satisfiable: the default socket is an initial socket ... *)
+Theorem C08_sender_honesty_initial_socket : forall cv, init_ok (sock_init cv).
+Proof. exact sock_init_ok. Qed.
+Print Assumptions C08_sender_honesty_initial_socket.
+
+(** ... and a concrete run (connect, the peer's answer, 25 bytes written, MTU lowered to 126, two retransmission time-outs, 3 more
+    bytes written) emits the first transmission and two re-segmented retransmissions, all at sequence number 7 *)
+Example C08_sender_honesty_nonvacuous :
+  match run (start (sock_init 7)) ops_sender with
+  | Ok t => (t_written t, data_pkts (t_ev t))
+  | Fault => ([], [])
+  end = (msg25 ++ [1; 2; 3], [(7, msg25); (7, firstn 10 msg25); (7, firstn 10 msg25)]).
+Proof. exact sender_run_nontrivial. Qed.
+
+(** FINDING (receiver side): every data segment fed below is the slice of the peer's stream at its sequence number, yet [recv] returns
+    bytes that are not a prefix of the peer's application bytes (65..74): the first connect segment carries a timestamp echo from the
+    future, is rejected AFTER it moved the socket to ESTABLISHED, and rcv_nxt stays 0 (see E2ESafetyProofs.v). *)
+Theorem C08_receiver_needs_more_than_honest_data_refuted :
+  match run (start (sock_init 7)) ops_bad_timestamp with
+  | Ok t => (t_read t, state (t_sock t))
+  | Fault => ([], CLOSED)
+  end = ([65; 66; 67; 68; 0; 0; 0; 65; 66; 67], ESTABLISHED) /\
+  forall k, [65; 66; 67; 68; 0; 0; 0; 65; 66; 67] <> firstn k peer_app.
+Proof. exact (conj honest_data_bad_timestamp_corrupts_the_stream corrupted_not_a_prefix). Qed.
+Print Assumptions C08_receiver_needs_more_than_honest_data_refuted.
